@@ -235,6 +235,9 @@ func c12PolicyErrors(env *fw.Env, idx int) fw.Result {
 		{"char-device", []gen.TarEntry{{Name: "c", Type: "char", Mode: 0644}}},
 		{"block-device", []gen.TarEntry{{Name: "b", Type: "block", Mode: 0644}}},
 	}
+	if idx >= len(cases) {
+		return c12PackPolicy(env, idx-len(cases))
+	}
 	c := cases[idx%len(cases)]
 	res := fw.Result{Hash: fw.HashString("pol" + c.name), NonTrivial: true, Class: "policy:" + c.name, Case: map[string]interface{}{"refusal": c.name, "entries": entryStrings(c.es)}}
 	parent := filepath.Join(env.Scratch, "c12", "pol")
@@ -257,6 +260,77 @@ func c12PolicyErrors(env *fw.Env, idx int) fw.Result {
 		res.Verdict, res.Finding, res.Msg = fw.Violated, "policy-violation-accepted", fmt.Sprintf("archive with %s was unpacked without error", c.name)
 	case !errors.As(uerr, &ise):
 		res.Verdict, res.Finding, res.Msg = fw.Violated, "policy-rejection-not-illegal-slug", fmt.Sprintf("archive with %s was refused with a plain error (%T: %v), not a distinguishable *IllegalSlugError", c.name, uerr, uerr)
+	}
+	return res
+}
+
+// c12PackPolicyCases are source trees Pack must refuse, each with a
+// distinguishable *IllegalSlugError: at the top level of the tree, below a
+// directory, and inside directories that are only reached by dereferencing
+// (where the refusal has to travel up through the nested walks).
+var c12PackPolicyCases = []struct {
+	name  string
+	deref bool
+	build func(src, out string)
+}{
+	{"pack-link-out-of-tree", false, func(src, out string) { os.Symlink("../out/f", src+"/l") }},
+	{"pack-link-out-of-tree-nested", false, func(src, out string) { os.Symlink("../../../out/f", src+"/a/b/l") }},
+	{"pack-link-absolute-out-of-tree", false, func(src, out string) { os.Symlink(out+"/f", src+"/a/l") }},
+	{"pack-link-led-outside-by-another-link", false, func(src, out string) {
+		os.Symlink("../..", src+"/a/b/top")
+		os.Symlink("a/b/top/../out/f", src+"/l")
+	}},
+	{"pack-deref-directory-cycle", true, func(src, out string) { os.Symlink("../out/cyc", src+"/l") }},
+	{"pack-deref-cycle-inside-dereferenced-directory", true, func(src, out string) { os.Symlink("../../out/holder", src+"/a/l") }},
+	{"pack-deref-cycle-two-dereferenced-directories-down", true, func(src, out string) { os.Symlink("../out/outer", src+"/l") }},
+}
+
+func c12PackPolicy(env *fw.Env, k int) fw.Result {
+	c := c12PackPolicyCases[k%len(c12PackPolicyCases)]
+	res := fw.Result{Hash: fw.HashString("packpol" + c.name), NonTrivial: true, Class: "policy:" + c.name, Case: map[string]interface{}{"refusal": c.name, "dereference": c.deref}}
+	parent := filepath.Join(env.Scratch, "c12", "packpol")
+	freshDir(parent)
+	src, out := parent+"/src", parent+"/out"
+	mustWrite(src+"/main.tf", "m", 0644)
+	mustWrite(src+"/a/b/f", "f", 0644)
+	mustWrite(out+"/f", "outside", 0644)
+	// out/cyc: a directory whose link leads back to the directory itself
+	mustWrite(out+"/cyc/x", "x", 0644)
+	os.Symlink(".", out+"/cyc/self")
+	// out/holder: a directory holding a link to a directory that loops
+	mustWrite(out+"/holder/y", "y", 0644)
+	os.Symlink("../cyc", out+"/holder/in")
+	// out/outer -> contains link to holder (two dereferences down)
+	mustWrite(out+"/outer/z", "z", 0644)
+	os.Symlink("../holder", out+"/outer/next")
+	c.build(src, out)
+	var opts []slug.PackerOption
+	if c.deref {
+		opts = append(opts, slug.DereferenceSymlinks())
+	}
+	p, err := slug.NewPacker(opts...)
+	if err != nil {
+		return fw.Result{Verdict: fw.Inconclusive, Msg: err.Error()}
+	}
+	var perr error
+	done := make(chan struct{})
+	var pn bool
+	var pv string
+	go func() {
+		pn, pv = fw.Try(func() { _, perr = p.Pack(src, io.Discard) })
+		close(done)
+	}()
+	<-done
+	if pn {
+		res.Verdict, res.Finding, res.Msg = fw.Violated, "panic", pv
+		return res
+	}
+	var ise *slug.IllegalSlugError
+	switch {
+	case perr == nil:
+		res.Verdict, res.Finding, res.Msg = fw.Violated, "policy-violation-accepted", fmt.Sprintf("source tree with %s was packed without error", c.name)
+	case !errors.As(perr, &ise):
+		res.Verdict, res.Finding, res.Msg = fw.Violated, "policy-rejection-not-illegal-slug", fmt.Sprintf("source tree with %s was refused with a plain error (%T: %v), not a distinguishable *IllegalSlugError", c.name, perr, perr)
 	}
 	return res
 }
@@ -794,7 +868,7 @@ var _ = io.EOF
 func init() {
 	packW := &fw.Phase{Name: "pack-writer-fails-at-every-offset", N: fw.Fixed(30, 100), Run: c12PackFaults}
 	unpackR := &fw.Phase{Name: "unpack-reader-fails-or-ends-at-every-offset", N: fw.Fixed(30, 150), Run: c12UnpackFaults}
-	policy := &fw.Phase{Name: "policy-rejections-are-illegal-slug-errors", Exhaustive: true, N: func(string) int { return 16 }, Run: c12PolicyErrors}
+	policy := &fw.Phase{Name: "policy-rejections-are-illegal-slug-errors", Exhaustive: true, N: func(string) int { return 16 + len(c12PackPolicyCases) }, Run: c12PolicyErrors}
 	builder := &fw.Phase{Name: "builder-every-callback-position-and-crash-point", N: fw.Fixed(150, 800), Run: func(env *fw.Env, idx int) fw.Result { return c12Builder(env, idx, false) }}
 	builderPairs := &fw.Phase{Name: "builder-pairs-of-fault-positions", ThoroughOnly: true, N: fw.Fixed(0, 200), Run: func(env *fw.Env, idx int) fw.Result { return c12Builder(env, idx, true) }}
 	escLocal := &fw.Phase{Name: "finder-reports-local-source-leaving-its-package", N: fw.Fixed(1000, 8000), Run: c12EscapingLocal}
